@@ -23,7 +23,7 @@ for _p in ("C02", "C04", "C05", "C07", "C09"):
 RULE["C02"] = RULE["C01"].replace("autograd returned", "autograd's forward mode returned")
 RULE["C04"] = "Same catalogue (real and complex data); a case is non-trivial iff both make_vjp and make_jvp returned for it; judged by the exact adjoint identity <conj g, J v> = <conj vjp(g), v> (tolerance 1e-10 relative to the sum of absolute products) and linearity of both maps; no numerical differentiation involved. distinct = distinct signatures."
 RULE["C05"] = "Same catalogue (real, complex, reduced-precision and kind/broadcast mixes); non-trivial iff a VJP or JVP result was returned and its structural descriptor (container nesting, shape, real/complex, dtype for float64/complex128) was compared with that of the argument (VJP) or the output (JVP). distinct = distinct signatures."
-RULE["C07"] = "Catalogue at order 2: phi(x)=<w,f(x)>; Hessian-vector products by rev-over-rev, fwd-over-rev, rev-over-fwd and v'Hv by fwd-over-fwd compared with each other, with a Richardson FD of autograd's first-order gradient and a raw-NumPy second difference; symmetry <u,Hv>=<v,Hu>. Non-trivial iff at least two mode combinations returned and the FD reference was self-consistent. distinct = distinct signatures."
+RULE["C07"] = "Catalogue at order 2 (real configurations plus those that really involve complex data; two-operand configurations also with both operands differentiated jointly = mixed second derivatives): phi(x)=<w,f(x)>, and for a third of the configurations (all of linalg) also the weighted squared residual 0.5*sum a|f(x)-f(x0)|^2 whose cotangent is exactly zero at x0 yet traced (judged only where one-sided derivatives of the gradient agree); Hessian-vector products by rev-over-rev, fwd-over-rev, rev-over-fwd and v'Hv by fwd-over-fwd compared with each other, with a Richardson FD of autograd's first-order gradient and a raw-NumPy second difference; symmetry <u,Hv>=<v,Hu>. Non-trivial iff at least two mode combinations returned and the FD reference was self-consistent. distinct = distinct signatures."
 RULE["C09"] = "Catalogue restricted to calls NumPy accepts with complex data: every real/complex assignment of the arguments; reverse result compared with conj(J_R^T conj g) and forward result with J_R v where J_R is the realified Jacobian from the FD oracle. Non-trivial as for C01. distinct = distinct signatures."
 ASSUMPTIONS = {
     p: [
@@ -149,7 +149,18 @@ def build(case_dec, which):
 
         return call, x0
 
-    if dup:
+    joint = case_dec.get("joint")
+    if joint:
+        # several positional arguments differentiated jointly: x is the tuple of them (mixed second derivatives)
+        x0 = tuple(args[i] for i in joint)
+
+        def expand(x):
+            a = list(args)
+            for k, i in enumerate(joint):
+                a[i] = x[k]
+            return a
+
+    elif dup:
         count = 2 if dup is True else int(dup)
         x0 = args[argnum]
 
@@ -262,7 +273,7 @@ def signature(case_dec, mode):
         "kw": {k: classify(v) for k, v in case_dec["kwargs"].items()},
         "point": case_dec.get("point", "regular"),
     }
-    for k in ("bcast", "tags", "outsel", "dup", "domain", "layout"):
+    for k in ("bcast", "tags", "outsel", "dup", "domain", "layout", "outer", "joint"):
         if case_dec.get(k) is not None:
             sig[k] = case_dec[k]
     return sig
@@ -609,6 +620,25 @@ def _inner_ag(w, y):
     return anp.sum(anp.real(anp.conj(w) * y))
 
 
+def _quad_ag(aw, y, y0):
+    """0.5 * sum aw*|y - y0|^2 with traceable operations (aw plain positive weights); containers leaf-wise."""
+    import autograd.numpy as anp
+
+    if isinstance(aw, (tuple, list)):
+        tot = 0.0
+        for i in range(len(aw)):
+            tot = tot + _quad_ag(aw[i], y[i], y0[i])
+        return tot
+    d = y - y0
+    return 0.5 * anp.sum(aw * anp.real(anp.conj(d) * d))
+
+
+def _abs_tree(w):
+    if isinstance(w, (tuple, list)):
+        return tuple(_abs_tree(t) for t in w)
+    return onp.abs(w) + 0.5
+
+
 def eval_order2(case_dec, rng):
     prep, out = prepare(case_dec)
     if out:
@@ -625,8 +655,24 @@ def eval_order2(case_dec, rng):
     u = rand_like(rng, x0)
     xf, vf, uf = realify(x0), realify(v), realify(u)
     wf = realify(w)
+    # the raw function must be finite on both sides of the point along v (e.g. x**p has no derivative in p for x<0)
+    try:
+        with onp.errstate(all="ignore"):
+            hh = 1e-3 * max(1.0, float(onp.max(onp.abs(xf))) if xf.size else 1.0) / max(1.0, float(onp.max(onp.abs(vf))) if vf.size else 1.0)
+            if not (onp.all(onp.isfinite(F(xf + hh * vf))) and onp.all(onp.isfinite(F(xf - hh * vf)))):
+                return Outcome("not_judged", "irregular_point")
+    except Exception:
+        return Outcome("not_judged", "irregular_point")
+
+    # outer function: linear <w, f(x)> (constant cotangent), or the weighted squared residual about the
+    # evaluation point itself, whose cotangent is EXACTLY zero at x0 yet varies with x (Hessian = J' W J):
+    # rules that inspect the cotangent's value must still be traceable there
+    outer = case_dec.get("outer", "linear")
+    aw = _abs_tree(w)
 
     def phi(x):
+        if outer == "quad0":
+            return _quad_ag(aw, acall(x), y0)
         return _inner_ag(w, acall(x))
 
     def grad_phi(x):
@@ -698,6 +744,17 @@ def eval_order2(case_dec, rng):
         return Outcome("not_judged", "irregular_point", extra=extra)
     ref = fd.val
     scale = 1.0 + float(onp.max(onp.abs(ref)))
+    if outer != "linear":
+        # the squared-residual gradient is continuous even across a jump of f whose Jacobian vanishes on one
+        # side (floor-like functions): a kink of the gradient that a central difference averages silently.
+        # Judge only where the one-sided derivatives of the gradient agree.
+        try:
+            dp, ep = common.fd_onesided(G, xf, vf, +1)
+            dm, em = common.fd_onesided(G, xf, vf, -1)
+        except Exception:
+            return Outcome("not_judged", "irregular_point", extra=extra)
+        if not (onp.all(onp.isfinite(dp)) and onp.all(onp.isfinite(dm))) or float(onp.max(onp.abs(dp - dm))) > 1e-5 * scale:
+            return Outcome("not_judged", "irregular_point", extra=extra)
     for k, hv in H.items():
         if hv.shape != ref.shape or float(onp.max(onp.abs(hv - ref))) > 1e-6 * scale:
             return Outcome("violation", symptom="wrong_value", detail="HVP %s deviates from FD-of-gradient by %r (scale %r)" % (k, float(onp.max(onp.abs(hv - ref))) if hv.shape == ref.shape else "shape", scale), extra=extra)
@@ -717,6 +774,11 @@ def eval_order2(case_dec, rng):
         a_, b_ = pair(uf, H["rr_v"]), pair(vf, Hu)
         if abs(a_ - b_) > 1e-9 * (1.0 + float(onp.sum(onp.abs(uf * H["rr_v"]))) + float(onp.sum(onp.abs(vf * Hu)))):
             return Outcome("violation", symptom="hessian_asymmetric", detail="<u,Hv>=%r <v,Hu>=%r" % (a_, b_), extra=extra)
+    if outer != "linear":
+        if len(got) < 2:
+            extra["single_mode"] = 1
+        return Outcome("ok", extra=extra)
+
     # independent second difference on raw NumPy (loose)
     def P(xf_):
         return onp.array([pair(wf, F(xf_))])
@@ -836,8 +898,11 @@ def make_cases(pid, tier, seed):
         return [c for c in out if c.get("argnum") is not None]
     for rep in range(reps):
         rng = onp.random.Generator(onp.random.PCG64([seed, rep, 77]))
-        if mode in ("rev", "fwd", "order2"):
+        if mode in ("rev", "fwd"):
             cs = list(catalogue.all_cases(rng, cx=False))
+        elif mode == "order2":
+            # real catalogue plus the configurations that really involve complex data (gauge-free selections)
+            cs = list(catalogue.all_cases(rng, cx=False)) + [c for c in catalogue.all_cases(rng, cx=True) if _has_complex(c) and not c.get("gauge")]
         elif mode == "cplx":
             cs = list(catalogue.all_cases(rng, cx=True))
         elif mode == "pair":
@@ -867,14 +932,34 @@ def make_cases(pid, tier, seed):
         out = [c for c in out if not c.get("gauge")]
         # keep only cases that really involve complex data
         out = [c for c in out if _has_complex(c)]
+    if mode == "order2":
+        # mixed second derivatives: both operands of two-argument configurations differentiated jointly
+        extra = []
+        isf = lambda a: (isinstance(a, (float, complex, onp.floating, onp.complexfloating)) and not isinstance(a, bool)) or (isinstance(a, onp.ndarray) and a.dtype.kind in "fc")
+        for c in out:
+            if c["form"] in ("function", "operator") and c["argnum"] == 0 and not c.get("dup") and not c.get("layout") and len(c["args"]) >= 2 and isf(c["args"][0]) and isf(c["args"][1]):
+                c2 = dict(c)
+                c2["joint"] = [0, 1]
+                extra.append(c2)
+        out = out + extra
+        # every third configuration additionally with the zero-cotangent outer function
+        extra = []
+        for k, c in enumerate(out):
+            if k % 3 == 0 or c["ns"] == "linalg":
+                c2 = dict(c)
+                c2["outer"] = "quad0"
+                extra.append(c2)
+        out = out + extra
     if mode == "order2" and tier == "quick":
         # reduced class set for the quick tier: every second case, all primitives kept
         keep = []
         seen = {}
+        sel = onp.random.Generator(onp.random.PCG64([seed, 991]))
         for c in out:
-            k = (c["prim"], c["form"])
+            k = (c["prim"], c["form"], c.get("outer"), bool(c.get("joint")))
             seen[k] = seen.get(k, 0) + 1
-            if seen[k] <= 6 or seen[k] % 3 == 0:
+            # random (seeded) thinning: a fixed stride aliases with the periodic structure of the generators
+            if seen[k] <= 6 or sel.uniform() < 0.34 or (c.get("joint") and c.get("tags")):
                 keep.append(c)
         out = keep
     return out
